@@ -195,12 +195,12 @@ Definition handler (op : opk) (src : pipe) (others : list pipe) (st : ostate) (p
       match e with
       | Nx x => let key := key_of k x in
                 match find_key key (st_groups st) with
-                | Some h => (st, [ASubjCall h (Nx x)])
+                | Some h => (st, [AWith MW []; ASubjCall h (Nx x)])      (* the map's write lock is taken to look the group up *)
                 | None => (st_set_groups st (st_groups st ++ [(key, fresh)]),
                            [ASubjNew KSubject; AWith MW [SinkNext (VObs fresh)]; ASubjCall fresh (Nx x)])
                 end
-      | Er x => (st, map (fun g => ASubjCall (snd g) (Er x)) (st_groups st) ++ [SinkError x])
-      | Co => (st, map (fun g => ASubjCall (snd g) Co) (st_groups st) ++ [SinkComplete ser])
+      | Er x => (st, [AWith MR (map (fun g => ASubjCall (snd g) (Er x)) (st_groups st)); SinkError x])      (* map read lock held across the groups' terminals *)
+      | Co => (st, [AWith MR (map (fun g => ASubjCall (snd g) Co) (st_groups st)); SinkComplete ser])
       end
   | OMaterialize =>
       match e with
@@ -543,6 +543,8 @@ Definition step (r : req) (w : world) : list req * world :=
       | PFromResult (inl v) => ([Deliver o (Nx v); Deliver o Co], w)
       | PFromResult (inr e) => ([Deliver o (Er e)], w)
       | PConn k => ([SubscribePipe (PHot (k_subj (conns w k))) o], w)
+      | PManual s => ([], w_manual (upd (manual w) s (manual w s ++ [o])) w)
+      | PRef i => ([SubscribePipe (defs w i) o], w)
       | PInner h => ([SubjJoin h o], w)
       | PHot h =>
           let sj := subjs w h in
@@ -699,6 +701,7 @@ Definition step (r : req) (w : world) : list req * world :=
                      | RUnsub k' => handle_sub w k'
                      | REmit h e => [SubjCall h e]
                      | RSub k' p => [DoSub k' p []]
+                     | RPush s e => map (fun o => Deliver o e) (manual w s)
                      end
                    else []) (reacts w k), w)
   | DoSub k p rs =>
@@ -726,6 +729,7 @@ Definition step (r : req) (w : world) : list req * world :=
           let '(o', w2) := alloc_obs w1 (TFeed (k_subj cn)) in
           ([SubscribePipe (k_src cn) o'; MkSub o' (DConn x); Snap], w2)
       | DDisconnect x => (match chandles w1 x with Some s => [SubUnsub s] | None => [] end ++ [Snap], w1)
+      | DPush s e => (map (fun o => Deliver o e) (manual w1 s) ++ [Snap], w1)
       end
   end.
 
@@ -747,6 +751,7 @@ Record scenario := {
   sc_scripts : list (list (list ev) * bool);          (* cold sources *)
   sc_subjects : list (skind * option val);            (* driver-visible subjects, ids 0.. *)
   sc_conns : list (ckind * pipe);                     (* connectables, ids 0..; each allocates its subject after the hot ones *)
+  sc_defs : list pipe;                                (* Observable values built once, referred to by PRef *)
   sc_handles : nat;
   sc_script : list action }.
 
@@ -774,7 +779,7 @@ Definition init_world (sc : scenario) : world :=
      cells := fun _ => None; n_cells := 0;
      conns := fun k => nth k conn_tab dflt_conn;
      scripts := fun s => nth s (sc_scripts sc) ([], false);
-     attempts := fun _ => 0; counters := fun _ => 0;
+     attempts := fun _ => 0; counters := fun _ => 0; manual := fun _ => []; defs := fun i => nth i (sc_defs sc) PNever;
      handles := fun _ => None; chandles := fun _ => None; reacts := fun _ => []; ncalls := fun _ => 0;
      n_child := 0; n_handles := sc_handles sc; n_hot := nh;
      log := []; taplog := []; probes := []; snaps := []; held := []; cur := 0; out := Running |}.
